@@ -1088,4 +1088,71 @@ example : (optimizeAbort exCfg exO exConv exSched exSt0 0 0 2).1.pts = [0, 3, 13
     (optimizeAbort exCfg exO exConv exSched exSt0 0 0 2).2 = true ∧
     afterCall [0, 5, 15] (optimizeAbort exCfg exO exConv exSched exSt0 0 0 2).1.pts true = [0, 5, 15] := by decide
 
+/-! ### round 6f: `add_link` between two calls -/
+
+/-- **A link added between two `optimize()` calls.** `cfg` well-formed, rest state, quality `q0`; after the first call
+    a link with a new id is registered whose follower sits where the link puts it for the leader's current position
+    (`hon`; vacuous when the leader carries no clamp), and — when the leader carries a clamp — whose follower is a grid
+    point without clamp that no clamped leader's link writes yet. Then the second call is entered in a rest state of a
+    well-formed configuration (the `PhasesOK` step), the final state is at rest and the final quality is `≤ q0`. -/
+theorem T_C13_noworse_add_link [LinearOrder Q] [LinearOrder S] {cfg : Cfg P Prm} {n : Nat} (hwf : WF cfg n)
+    (o : Oracles P Q) (c1 c2 : Call Prm Q S) (st : St P Prm) (hr : Rest cfg n st) (q0 : Q) (hq : o.gq st.pts = some q0)
+    (l : Link) (fn : P → P) (hfresh : ∀ x ∈ cfg.links, x.lid ≠ l.lid)
+    (hfol : l.leader ∈ cfg.clampIdx → l.follower < n ∧ l.follower ∉ cfg.clampIdx ∧
+      ∀ x ∈ cfg.links, x.leader ∈ cfg.clampIdx → x.follower ≠ l.follower)
+    (hon : ∀ j p, cfg.clampIdx[j]? = some l.leader →
+      (optimize cfg o c1.conv c1.maxIter c1.sched st).st.prm[j]? = some p →
+      (optimize cfg o c1.conv c1.maxIter c1.sched st).st.pts[l.follower]? = some (fn (cfg.pos j p))) :
+    let st1 := (optimize cfg o c1.conv c1.maxIter c1.sched st).st
+    let cfg' := cfg.addLink l fn
+    let st2 := (optimize cfg' o c2.conv c2.maxIter c2.sched st1).st
+    WF cfg' n ∧ Rest cfg' n st1 ∧ Rest cfg' n st2 ∧ ∃ q2, o.gq st2.pts = some q2 ∧ q2 ≤ q0 := by
+  intro st1 cfg' st2
+  have hr1 : Rest cfg n st1 := T_C13_on hwf o c1.conv c1.maxIter c1.sched st hr
+  obtain ⟨q1, hq1, hle1⟩ := T_C13_noworse hwf o c1.conv c1.maxIter c1.sched st hr q0 hq
+  have hwf' : WF cfg' n := wf_addLink hwf l fn hfol
+  have hr' : Rest cfg' n st1 := rest_addLink hr1 l fn hfresh hon
+  obtain ⟨q2, hq2, hle2⟩ := T_C13_noworse hwf' o c2.conv c2.maxIter c2.sched _ hr' q1 hq1
+  exact ⟨hwf', hr', T_C13_on hwf' o c2.conv c2.maxIter c2.sched _ hr', q2, hq2, le_trans hle2 hle1⟩
+
+/-- **… unconditionally for a `TranslationLink` built from the current positions** (`TranslationLink(leader.position,
+    follower.position)` after the first call, whether or not the leader has moved in it): the consistency hypothesis
+    `hon` of `T_C13_noworse_add_link` holds by construction. -/
+theorem T_C13_noworse_add_translation_link [LinearOrder Q] [LinearOrder S] {cfg : Cfg V3 Prm} {n : Nat} (hwf : WF cfg n)
+    (o : Oracles V3 Q) (c1 c2 : Call Prm Q S) (st : St V3 Prm) (hr : Rest cfg n st) (q0 : Q) (hq : o.gq st.pts = some q0)
+    (l : Link) (l0 f0 : V3) (hfresh : ∀ x ∈ cfg.links, x.lid ≠ l.lid)
+    (hfol : l.leader ∈ cfg.clampIdx → l.follower < n ∧ l.follower ∉ cfg.clampIdx ∧
+      ∀ x ∈ cfg.links, x.leader ∈ cfg.clampIdx → x.follower ≠ l.follower)
+    (hl0 : (optimize cfg o c1.conv c1.maxIter c1.sched st).st.pts[l.leader]? = some l0)
+    (hf0 : (optimize cfg o c1.conv c1.maxIter c1.sched st).st.pts[l.follower]? = some f0) :
+    let st1 := (optimize cfg o c1.conv c1.maxIter c1.sched st).st
+    let cfg' := cfg.addLink l (C17.translationLink l0 f0)
+    let st2 := (optimize cfg' o c2.conv c2.maxIter c2.sched st1).st
+    WF cfg' n ∧ Rest cfg' n st1 ∧ Rest cfg' n st2 ∧ ∃ q2, o.gq st2.pts = some q2 ∧ q2 ≤ q0 := by
+  refine T_C13_noworse_add_link hwf o c1 c2 st hr q0 hq l _ hfresh hfol ?_
+  intro j p hj hp
+  have hr1 : Rest cfg n (optimize cfg o c1.conv c1.maxIter c1.sched st).st :=
+    T_C13_on hwf o c1.conv c1.maxIter c1.sched st hr
+  have := (hr1.2.2 j l.leader p hj hp).1
+  rw [hl0] at this
+  rw [hf0, ← Option.some.inj this, c17_translation_at]
+
+/-- non-vacuity on the instance: after the first call (vertex 1 at 2) a link from the clamped junction 1 to the free
+    junction 0 is added, built from the current positions (offset −2); the second call evaluates 3 (junction 0 follows to 1, the quality
+    gets worse) and rolls back: vertex 1 at 2, junction 0 at 0 again -/
+example : (∀ x ∈ exCfg.links, x.lid ≠ 1) ∧ (0 : Nat) < 3 ∧ 0 ∉ exCfg.clampIdx ∧
+    (∀ x ∈ exCfg.links, x.leader ∈ exCfg.clampIdx → x.follower ≠ 0) ∧
+    (∀ j p, exCfg.clampIdx[j]? = some 1 → (optimize exCfg exO exConv 2 exSched exSt0).st.prm[j]? = some p →
+      (optimize exCfg exO exConv 2 exSched exSt0).st.pts[0]? = some ((fun (x : Int) => x - 2) (exCfg.pos j p))) ∧
+    (optimize (exCfg.addLink ⟨1, 0, 1⟩ (fun x => x - 2)) exO exConv 1
+      (fun _ => ⟨fun _ => ([], 0), fun _ _ => ([3], false)⟩) (optimize exCfg exO exConv 2 exSched exSt0).st).st.pts
+      = [0, 2, 12] := by
+  refine ⟨by decide, by decide, by decide, by decide, ?_, by decide⟩
+  intro j p hj hp
+  match j with
+  | 0 =>
+      have e : (optimize exCfg exO exConv 2 exSched exSt0).st.prm = [2] := by decide
+      rw [e] at hp; simp at hp; subst hp; decide
+  | j + 1 => simp [exCfg] at hj
+
 end CBV.C13
